@@ -74,7 +74,11 @@ const PN: &[&str] = &["p(X) :- q(X), X != n.", "p(X) :- q(X), not t(X). t(n).", 
 const PC: &[&str] = &["p(X) :- q(X), X != c.", "p(X) :- q(X), X != c, X != d.", "p(X) :- q(X), not t(X). t(c).", "p(X) :- q(X). :- q(c), q(d), c = d.", "p(X) :- q(X), X < c."];
 const SN: &[&str] = &["spec: forall X (p(X) <-> q(X) and X != n).", "spec: forall X (p(X) -> q(X) and X < n). spec(backward): forall X (p(X) -> X != n).", "assumption: n > 0. spec: forall X (p(X) <-> q(X) and X < n)."];
 const SNAMED: &[&str] = &["spec[formula_1]: p -> q. spec[formula_1]: q -> p.", "assumption[a]: q or not q. spec[formula_0_a]: p <-> q.", "spec[x]: p -> q. spec[x]: q -> p.", "spec[formula_2_completed_definition_of_p_0]: p <-> q.",
-    "spec(forward)[formula_0_x]: q -> p. spec(backward)[formula_0_x]: p -> q. spec[p]: p or not p."];
+    "spec(forward)[formula_0_x]: q -> p. spec(backward)[formula_0_x]: p -> q. spec[p]: p or not p.",
+    // names that coincide once a counter is put behind or in front of them
+    "spec[x]: p -> q. spec[x]: q -> p. spec[x_1]: p or not p.", "spec[x_1]: p -> q. spec[x]: q -> p. spec[x]: p or not p.", "spec[x]: p -> q. spec[x_0]: q -> p. spec[x]: p or not p. spec[x_2]: q or not q. spec[x]: p <-> q.",
+    "spec[formula_x]: p -> q. spec[x]: q -> p. spec[formula_formula_x]: p or not p.", "spec[x]: p -> q. spec[x1]: q -> p. spec[x]: p or not p. spec[x_1_1]: q or not q. spec[x_1]: q <-> p.",
+    "assumption[x]: q or not q. spec[x]: p <-> q. assumption[x_1]: not not q or not q.", "spec[x_2]: p -> q. spec[x_1]: q -> p. spec[x_0]: p or not p. spec[x]: q or not q. spec[x]: p <-> q. spec[x]: q <-> p."];
 const SD: &[&str] = &["assumption(forward): q. spec: p <-> q.", "assumption(forward): q. spec: p.", "assumption: q. spec(backward): p. spec(forward): p or not p.", "assumption(forward): not q. spec: p <-> q. spec(backward): p -> q."];
 
 const UG2: &str = "input: e/2. output: r/1.";
@@ -92,12 +96,15 @@ const P0: &[&str] = &[
     "p :- q.", "p :- not not q.", "p :- q, not t. t :- not q.", "p :- t. t :- q.", "p :- not t. t :- not q.", "{p} :- q.", "p :- q. :- not q.", "p.", "p :- t.", "p :- not t.", "t. p :- t, q.",
     "p :- q. :- p, not q.", "p :- q, t. t.", "p :- q. t :- p.", "p :- q, not t.", "p :- t. t :- u. u :- q.", "{p}. :- p, not q. :- q, not p.", "p :- q, not not p.", "p :- not not p, q.",
     "p :- t. t :- u, q.", "p :- t, not u. t :- q.",
+    // constraints on private atoms
+    "p :- q. t :- q. :- t.", "p :- q. t :- not p. :- t, q.", "{p}. t :- q, not p. :- t.", "p. t :- not q. :- t.", "p :- q. :- not t. t :- q.", "p :- q. t :- q. :- not not t.",
 ];
 const P0S: &[&str] = &["p :- q. p :- s.", "p :- t. t :- q. t :- s.", "p.", "p :- q.", "p :- not t. t :- not q, not s.", "p :- q, s. p :- q, not s. p :- s, not q."];
 const P1: &[&str] = &[
     "p(X) :- q(X).", "p(X) :- q(X), not t(X). t(X) :- q(X), X = 0.", "p(X) :- t(X). t(X) :- q(X).", "{p(X)} :- q(X).", "p(X) :- q(X), X != 1.", "p(0) :- q(0). p(1) :- q(1).", "p(X) :- q(X), not t(X).",
     "p(X) :- q(X), t(X). t(0). t(1).", "p(X) :- q(X), not not q(X).", "p(X) :- q(X). :- q(X), not p(X).", "p(X) :- t(X). t(X) :- u(X). u(X) :- q(X).", "p(X) :- q(X), w. w :- q(0).",
     "p(X) :- t(X).", "p(X) :- q(X), not u(X).", "p(X) :- q(X), X = 0. p(X) :- q(X), X = 1.", ":- q(X), X > 0. p(X) :- q(X).", "p(X) :- q(X). :- p(1).", "p(X) :- q(X), X != a.", "p(X) :- q(X), X != a. p(X) :- q(X), X = a.", "p(X) :- t(X). t(X) :- q(X), not u(X).",
+    "p(X) :- q(X). w :- q(1). :- w.", "p(X) :- q(X). t(X) :- q(X), X > 0. :- t(X).", "{p(X)} :- q(X). w :- q(X), not p(X). :- w.",
 ];
 const S0: &[&str] = &[
     "spec: p <-> q.", "spec(forward): q -> p. spec(backward): p -> q.", "spec(forward): p -> q. spec(backward): q -> p.", "spec: p or not p.", "assumption: q. spec: p.", "spec(forward): p <-> q.",
